@@ -354,7 +354,7 @@ func (sc *scen) expectIdleCut(h *nodeH, peerID string, from int) {
 	}
 	sc.count("idle_cut")
 	idle, mx := num(r, "idle_ms"), num(r, "max_ms")
-	if idle <= mx {
+	if idle < mx { // whole milliseconds: equality is not early
 		sc.violate("X-SESSIONLIFE:idle_cut:before-max-idle", fmt.Sprintf("%s cut %s after only %d ms of silence (max idle %d ms)", h.id, peerID, idle, mx))
 	}
 	if !sc.poll(10*time.Second, func() bool { return h.gone(peerID) }) {
@@ -610,8 +610,9 @@ func (sc *scen) runMemSilentStart() {
 		}
 	}
 	sc.count("init_resent_3plus")
-	if ninit != sent {
-		sc.violate("X-SESSIONLIFE:init:frames-differ-from-sends", fmt.Sprintf("the peer received %d initial-connect messages, the node reports %d sends", ninit, sent))
+	// a message handed to the writer right before the session is cancelled may be lost (best effort), nothing else
+	if ninit > sent || ninit < sent-1 {
+		sc.violate("X-SESSIONLIFE:init:frames-differ-from-sends", fmt.Sprintf("the peer received %d initial-connect messages, the node reports %d handed to its writer", ninit, sent))
 	}
 	if sent < 3 {
 		sc.giveUp("only %d init sends", sent)
@@ -638,6 +639,7 @@ func (sc *scen) runMemRejectTrailing() {
 			sc.giveUp("not established with the scripted peer %s within 10 s", p.ID)
 		}
 		from := sc.col.length()
+		p.Pipe.BA.SetHold(true) // the frames arrive back to back: the reader has the next one before the main loop is done
 		switch v {
 		case 0: // type-3 reject frame
 			_ = p.SendRaw([]byte{netceptor.MsgTypeReject, '[', ']'})
@@ -649,6 +651,7 @@ func (sc *scen) runMemRejectTrailing() {
 		for i := 0; i < ntrail; i++ {
 			_ = p.OwnUpdate(map[string]float64{h.id: 1})
 		}
+		p.Pipe.BA.SetHold(false)
 		if _, _, ok := sc.waitEv(h, from, 10*time.Second, "sess_end", nil); !ok {
 			sc.giveUp("session did not end within 10 s of the rejection")
 		}
@@ -770,6 +773,61 @@ func (sc *scen) runMemPhaseCancel() {
 	}
 }
 
+// A schedule TLC found on SessionLife.tla (SessionLife_race.cfg), replayed with a gate: session S1 of peer px is being
+// removed and is parked between the two critical sections of removeConnection (connection entry deleted, adjacency
+// edge not yet); a new session S2 of px is admitted and enters its edge; S1 goes on and deletes "the" edge by peer id.
+// Runs alone (the gate is process-wide).
+func (sc *scen) runGateRemoveRace() {
+	h, b := sc.memNode("g")
+	p1, err := peer.Attach(b, "px", int64(sc.idx)*10+1)
+	if err != nil {
+		sc.giveUp("attach: %v", err)
+	}
+	if err := p1.Handshake(h.id, 1, nil); err != nil {
+		sc.giveUp("handshake: %v", err)
+	}
+	if !sc.poll(10*time.Second, func() bool { return h.connected("px") }) {
+		sc.giveUp("not established with the scripted peer within 10 s")
+	}
+	hit, release := verifhook.HoldGate("remove_between_sections")
+	defer release()
+	v := sc.rng.Intn(2)
+	sc.desc["removal_by"] = []string{"reject_frame", "peer_close"}[v]
+	if v == 0 {
+		_ = p1.SendRaw([]byte{netceptor.MsgTypeReject, '[', ']'})
+	} else {
+		p1.Close()
+	}
+	select {
+	case <-hit:
+	case <-time.After(10 * time.Second):
+		sc.giveUp("the removal did not reach the gate within 10 s")
+	}
+	from := sc.col.length()
+	p2, err := peer.Attach(b, "px", int64(sc.idx)*10+2)
+	if err != nil {
+		sc.giveUp("attach 2: %v", err)
+	}
+	if err := p2.Handshake(h.id, 1, nil); err != nil {
+		sc.giveUp("handshake 2: %v", err)
+	}
+	if _, _, ok := sc.waitEv(h, from, 10*time.Second, "established", nil); !ok {
+		sc.giveUp("second session of px not established within 10 s while the first is parked")
+	}
+	release()
+	if _, _, ok := sc.waitEv(h, from, 10*time.Second, "sess_end", nil); !ok {
+		sc.giveUp("first session did not end within 10 s of the release")
+	}
+	time.Sleep(500 * time.Millisecond)
+	st := h.n.Status()
+	_, adj := st.KnownConnectionCosts[h.id]["px"]
+	_, rt := st.RoutingTable["px"]
+	sc.desc["connected"], sc.desc["adjacency"], sc.desc["route"] = len(st.Connections) == 1, adj, rt
+	if len(st.Connections) == 1 && !adj {
+		sc.count("connected_without_adjacency")
+	}
+}
+
 func (sc *scen) run() {
 	sc.t0 = time.Now()
 	sc.from = sc.col.length()
@@ -798,6 +856,8 @@ func (sc *scen) run() {
 		sc.runMemPairHold()
 	case "mem_phase_cancel":
 		sc.runMemPhaseCancel()
+	case "gate_remove_race":
+		sc.runGateRemoveRace()
 	default:
 		sc.giveUp("unknown scenario kind %q", sc.kind)
 	}
